@@ -2,8 +2,11 @@
 
 pub mod common;
 pub mod enumerators;
+pub mod grids;
 pub mod histories;
 pub mod replay;
+pub mod sweeps;
+pub mod values;
 
 use crate::runner::{Tier, Verdict};
 
@@ -16,6 +19,17 @@ pub fn run_check(prop: &str, tier: Tier, seed: u64) -> Option<Verdict> {
         "C02" => histories::c02(tier, seed),
         "C03" => histories::c03(tier, seed),
         "C05" => enumerators::c05(tier, seed),
+        "C06" => grids::c06(tier, seed),
+        "C07" => grids::c07(tier, seed),
+        "C10" => grids::c10(tier, seed),
+        "C11" => grids::c11(tier, seed),
+        "C12" => grids::c12(tier, seed),
+        "C17" => grids::c17(tier, seed),
+        "C08" => sweeps::c08(tier, seed),
+        "C09" => sweeps::c09(tier, seed),
+        "C14" => values::c14(tier, seed),
+        "C15" => values::c15(tier, seed),
+        "C16" => values::c16(tier, seed),
         "C13" => enumerators::c13(tier, seed),
         "C18" => enumerators::c18(tier, seed),
         _ => return None,
@@ -23,6 +37,14 @@ pub fn run_check(prop: &str, tier: Tier, seed: u64) -> Option<Verdict> {
 }
 
 /// Replay of non-history case kinds (value engines, grids).
-pub fn replay_other(_prop: &str, _kind: &str, _case: &serde_json::Value) -> Option<Vec<(usize, String, String)>> {
-    None
+pub fn replay_other(_prop: &str, kind: &str, case: &serde_json::Value) -> Option<Vec<(usize, String, String)>> {
+    match kind {
+        "push_loop" => {
+            let n = case.get("n")?.as_u64()? as usize;
+            let mix = case.get("mix")?.as_u64()? as usize;
+            Some(grids::c12_loop_case(n, mix).map(|v| vec![(0, v.clause, v.detail)]).unwrap_or_default())
+        }
+        "bytes" | "units" | "value" => values::replay_value(case),
+        _ => None,
+    }
 }
